@@ -330,10 +330,25 @@ fn rec_for(p: &PointSpec, serial: u32, flags_seed: u8) -> Rec {
     match p.ty {
         0 | 2 => r.flags = (r.flags & 0x81) | (q & 0x7E),
         1 => r.flags = (r.flags & 0xC1) | (q & 0x3E),
-        7 => {}
+        7 => {
+            // one case in eight carries long octet strings: 238 octets is the longest that fits a 249-octet fragment
+            // (4 header + 3 object header + 4 range + 238), 255 the longest there is
+            if flags_seed % 8 == 0 && p.index % 3 == 0 {
+                let len = [100usize, 200, 238, 239, 255, 17][(p.index as usize / 3 + serial as usize) % 6];
+                while r.bytes.len() < len {
+                    r.bytes.push((r.bytes.len() as u8) ^ (serial as u8));
+                }
+            }
+        }
         _ => r.flags = 0x01 | (q & 0x7E),
     }
     r
+}
+
+/// an octet string of `len` octets needs 3 (object header) + 4 (16-bit range, or count + index for an event) + len
+/// octets after the 4-octet response header: can it ever be transmitted with this buffer?
+fn oversized(len: usize, sol_tx: u16) -> bool {
+    len + 7 > sol_tx as usize - 4
 }
 
 async fn run_case(case: &Case) -> CaseOut {
@@ -434,6 +449,41 @@ async fn run_case(case: &Case) -> CaseOut {
                     reported.push((ty, o.index.unwrap_or(0) as u16));
                 }
             }
+        }
+        if !f.fin && headers.iter().all(|h| h.objects.is_empty()) {
+            // a fragment that is not the last one and reports nothing: the series makes no progress
+            let asked: Vec<(u8, u16)> = expected_blocks(case, &snapshot)
+                .into_iter()
+                .flat_map(|b| match b {
+                    Block::Ordered(v) => v,
+                    Block::AnyTypeOrder(v) => v.into_iter().flatten().collect(),
+                })
+                .map(|(t, i, _)| (t, i))
+                .collect();
+            let too_long = snapshot
+                .values()
+                .filter(|(p, r)| {
+                    r.ty == 7
+                        && oversized(r.bytes.len(), case.sol_tx)
+                        && (asked.contains(&(7, p.index)) || (wants_events && p.class != 0))
+                })
+                .map(|(p, r)| format!("octet string {} of {} octets", p.index, r.bytes.len()))
+                .next();
+            out.fail(
+                Fail::new(
+                    "empty-non-final-fragment",
+                    format!(
+                        "fragment #{k} of the series is not final and carries no object (transmit buffer {}{})",
+                        case.sol_tx,
+                        too_long.as_ref().map(|t| format!("; the database holds {t}, which cannot fit any fragment")).unwrap_or_default()
+                    ),
+                )
+                .with_sig(format!(
+                    "C11 empty-non-final-fragment {}",
+                    if too_long.is_some() { "object-larger-than-fragment" } else { "all-objects-fit" }
+                )),
+            );
+            return out;
         }
         series.push(f.clone());
         if f.fin && !f.con {
@@ -713,11 +763,15 @@ async fn run_case(case: &Case) -> CaseOut {
     }
 
     // --- a following READ starts a fresh series ---
-    if !out.failed() {
+    // (the probe point is one that fits a fragment: see the known finding about objects that do not)
+    let probe_point = db
+        .values()
+        .find(|(_, r)| !(r.ty == 7 && oversized(r.bytes.len(), case.sol_tx)))
+        .cloned();
+    if let (false, Some((spec, rec))) = (out.failed(), probe_point) {
         // a READ of exactly one existing point: the answer is one FIR+FIN fragment holding that point's CURRENT value
         // and nothing else - in particular nothing left over from the series that has just ended
         let s2 = (case.seq + 3) & 0x0F;
-        let (spec, rec) = db.values().next().cloned().unwrap();
         let hdr = RHeader::Range(spec.ty, None, spec.index, spec.index, spec.index > 255);
         let probe = Case {
             points: vec![],
